@@ -881,9 +881,14 @@ class StrainEnergy:
             3x3 rotation matrix
         '''
         self.rotation = np.array(rot)
+        #Rotated tensors are stored in params, so they have to follow a rotation that is set after the elastic constants
+        if self.unrotated_cMatrix_4th.any():
+            self.update()
 
     def setRotationPrecipitate(self, rot):
         self.rotationPrec = np.array(rot)
+        if self.unrotated_cMatrix_4th.any():
+            self.update()
 
     def setEigenstrain(self, strain):
         '''
